@@ -337,9 +337,128 @@ u_table(uint64_t idx, void *arg)
                   rt_describe(&d));
 }
 
+/* ---- a large device: one callback-backed area of 0x12000 words behind a small memory area, read in windows of
+ * 65535 words and more (what a driver with 16-bit transfer counters would have to split). The table is written by
+ * hand; the device's words are a function of their offset. ---- */
+#define BIGDEV_WORDS 0x12000u
+static RegisterAtom bigdev[BIGDEV_WORDS];
+static unsigned bigdev_calls, bigdev_bad;
+
+static RegisterAtom
+bigdev_word(uint32_t off)
+{
+    return (RegisterAtom)((off * 40503u) ^ (off >> 5) ^ 0x5a5au);
+}
+
+static RegisterAccess
+bigdev_read(const RegisterArea *a, RegisterAtom *dst, RegisterOffset off, RegisterOffset n)
+{
+    RegisterAccess rv = REG_ACCESS_RESULT_INIT;
+    bigdev_calls++;
+    if ((uint64_t)off + n > BIGDEV_WORDS || a->size != BIGDEV_WORDS) {
+        bigdev_bad = 1;
+        rv.code = REG_ACCESS_IO_ERROR;
+        return rv;
+    }
+    memcpy(dst, bigdev + off, n * sizeof(RegisterAtom));
+    return rv;
+}
+
+static void
+u_bigdev(uint64_t idx, void *arg)
+{
+    (void)arg;
+    vh_arena_reset();
+    const uint32_t mbase = idx & 1 ? 0x100u : 0x7fff0000u, dbase = mbase + 16u;
+    for (uint32_t i = 0; i < BIGDEV_WORDS; i++)
+        bigdev[i] = bigdev_word(i);
+    RegisterArea *areas = vh_arena(3 * sizeof(RegisterArea));
+    RegisterEntry *entries = vh_arena(3 * sizeof(RegisterEntry));
+    RegisterAtom *mem = vh_arena(16 * sizeof(RegisterAtom));
+    memset(areas, 0, 3 * sizeof(RegisterArea));
+    memset(entries, 0, 3 * sizeof(RegisterEntry));
+    memset(mem, 0xCD, 16 * sizeof(RegisterAtom));
+    areas[0].read = reg_mem_read;
+    areas[0].write = reg_mem_write;
+    areas[0].mem = mem;
+    areas[0].base = mbase;
+    areas[0].size = 16;
+    areas[0].flags = REG_AF_READABLE | REG_AF_WRITEABLE;
+    areas[1].read = bigdev_read;
+    areas[1].write = NULL;
+    areas[1].base = dbase;
+    areas[1].size = BIGDEV_WORDS;
+    areas[1].flags = REG_AF_READABLE;
+    entries[0].type = REG_TYPE_UINT16;
+    entries[0].address = mbase + 3;
+    entries[0].default_value.u16 = 0x1234;
+    entries[0].check.type = REGV_TYPE_TRIVIAL;
+    entries[1].type = REG_TYPE_UINT16;
+    entries[1].address = dbase + 70000u;
+    entries[1].check.type = REGV_TYPE_TRIVIAL;
+    entries[2].type = REG_TYPE_INVALID;
+    RegisterTable t;
+    memset(&t, 0, sizeof t);
+    t.area = areas;
+    t.entry = entries;
+    if (idx & 2)
+        register_make_bigendian(&t, true);
+    RegisterInit ri = register_init(&t);
+    if (ri.code != REG_INIT_SUCCESS) {
+        vh_fail("init-wellformed", "table=bigdev", "memory area %u+16, device area %u+%u: code=%d", mbase, dbase, BIGDEV_WORDS, ri.code);
+        return;
+    }
+    static const struct { uint32_t off, n; } win[] = {
+        { 16, 65534 }, { 16, 65535 }, { 16, 65536 }, { 16, 65537 }, { 17, 65535 }, { 17, 70000 }, { 16 + 65535, 1 }, { 16 + 65530, 12 },
+        { 16, BIGDEV_WORDS }, { 0, 16 + BIGDEV_WORDS }, { 9, 7 + 66000 }, { 16 + 3, BIGDEV_WORDS - 3 }, { 16 + 0x10000, 0x2000 }, { 16 + 1, 0x10000 },
+    };
+    for (size_t w = 0; w < sizeof win / sizeof win[0]; w++)
+        for (int unsafe = 0; unsafe < 2; unsafe++) {
+            VH_CASE4(idx, w, unsafe, 0);
+            const uint32_t addr = mbase + win[w].off, n = win[w].n;
+            RegisterAtom *buf = vh_arena(sizeof(RegisterAtom) * n);
+            memset(buf, 0x5E, sizeof(RegisterAtom) * n);
+            bigdev_calls = 0;
+            RegisterAccess a = unsafe ? register_block_read_unsafe(&t, addr, n, buf) : register_block_read(&t, addr, n, buf);
+            VH_COUNT("read: window of 65535 words or more in one device area");
+            char key[64];
+            snprintf(key, sizeof key, "table=bigdev entry=%s", unsafe ? "block_read_unsafe" : "block_read");
+            if (a.code != REG_ACCESS_SUCCESS) {
+                vh_fail("mapped-read-refused", key, "memory area %u+16, device area %u+%u: read(addr=%u,n=%u) code=%d address=%u", mbase, dbase,
+                        BIGDEV_WORDS, addr, n, a.code, a.address);
+            } else {
+                for (uint32_t k = 0; k < n; k++) {
+                    uint32_t ad = addr + k;
+                    RegisterAtom want;
+                    if (ad >= dbase) {
+                        want = bigdev_word(ad - dbase);
+                    } else {
+                        unsigned char e[2] = { 0, 0 };
+                        if (ad == mbase + 3)
+                            rt_encode(REG_TYPE_UINT16, (idx & 2) != 0, 0x1234, e);
+                        memcpy(&want, e, 2);
+                    }
+                    if (buf[k] != want) {
+                        vh_fail("read-content", key, "memory area %u+16, device area %u+%u: read(addr=%u,n=%u): word %u (address %u, device offset %ld) is %04x, stored there is %04x (%u device calls)",
+                                mbase, dbase, BIGDEV_WORDS, addr, n, k, ad, (long)ad - (long)dbase, buf[k], want, bigdev_calls);
+                        break;
+                    }
+                }
+            }
+            if (bigdev_bad) {
+                vh_fail("device-read-out-of-range", key, "read(addr=%u,n=%u): the device was asked for words outside its area", addr, n);
+                bigdev_bad = 0;
+            }
+        }
+    vh_sig(0x03500000ull ^ idx);
+}
+
 void
 harness_run(void)
 {
+    for (uint64_t i = 0; i < 4; i++)
+        vh_unit("bigdev", i, u_bigdev, NULL);
+    vh_require("read: window of 65535 words or more in one device area");
     uint64_t ntables = vh_tier ? 60000 : 400;
     for (uint64_t i = 0; i < ntables; i++)
         vh_unit("table", i, u_table, NULL);
